@@ -94,6 +94,23 @@ func (e *Exec) inlineTarget(st *State, call *ast.CallExpr) *inlineInfo {
 		}
 		return &inlineInfo{fn: fn, decl: decl, pkg: e.prog.declPkg[fn]}
 	}
+	if c == nil && !e.prog.specs.NoEffect[libKey(fn)] {
+		// a module function without a contract (a helper extracted by a refactoring): its body is
+		// executed in place, so the caller's obligations are decided on the real code of both
+		decl := e.prog.decls[fn]
+		if decl == nil || decl.Body == nil {
+			return nil
+		}
+		for _, fr := range e.frames {
+			if fr.decl == decl {
+				return nil // recursive: needs a contract
+			}
+		}
+		if e.decl == decl {
+			return nil
+		}
+		return &inlineInfo{fn: fn, decl: decl, pkg: e.prog.declPkg[fn]}
+	}
 	return nil
 }
 
